@@ -5,7 +5,7 @@ from h5harness import *
 RULE = ("fault enumeration: an unstorable value (a sequence containing None, which h5py refuses) injected at every position "
         "— each key of attrs, each key of dnplab_attrs, each parameter of each history step, each entry of a workspace "
         "(data object or plain dictionary) — x {no previous file, previously saved file, existing non-HDF5 file (text / empty)} x {overwrite on, off}, plus the "
-        "fault-free saves; the destination's outcome class (absent / loads equal to the previous content / does not load / "
+        "fault-free saves, and workspace entries that are neither data objects nor dictionaries (array, list, number; first / middle / last); the destination's outcome class (absent / loads equal to the previous content / does not load / "
         "loads something else) and whether save raised are compared with the Lean model of save_h5 and checked against the "
         "property directly; non-trivial = a fault with a previous file present")
 BAD = {"t": "seq", "v": [{"t": "num", "v": "1"}, {"t": "none"}]}
@@ -64,6 +64,14 @@ def cases(tier, seed):
             for prev in (None, prev_single):
                 for ow in (True, False):
                     out.append({"ws": ws, "prev": prev, "overwrite": ow, "label": "ws[%d]:%s" % (k, kind)})
+    # an ENTRY that cannot be stored at all (neither a data object nor a dictionary), first / middle / last
+    for k in range(3):
+        for py in ("array", "list", "number"):
+            ws = [["e%d" % j, {"kind": "data", "obj": rand_obj(rng, nd=1, hist=1, dtype="f8")}] for j in range(3)]
+            ws[k] = ["e%d" % k, {"kind": "raw", "py": py}]
+            for prev in (None, prev_single, {"other": 1}):
+                for ow in (True, False):
+                    out.append({"ws": ws, "prev": prev, "overwrite": ow, "label": "ws-entry[%d]:%s" % (k, py)})
     return out
 
 
@@ -131,6 +139,10 @@ def run(tier, seed, escalate=False):
                 # that loads successfully with part of the attributes / history missing
                 if icls != "absent" and i["loads"]:
                     key = "C17:unstorable-value-silently-dropped:" + pos
+                    fails.append({"key": key, "clause": key, "ops": [c]})
+                else:
+                    # "… the call raises": a save that could not store everything and says nothing
+                    key = "C17:failed-save-did-not-raise:" + pos
                     fails.append({"key": key, "clause": key, "ops": [c]})
             if i.get("leftover_tmp"):
                 key = "C17:temporary-file-left-behind:" + pos
